@@ -21,8 +21,10 @@ P = "nucs/propagators/"
 VARIANTS = []
 
 
-def V(id, kind, props, file, old, new, what, expect_fn=None, within=None, edits=None, expect_rule=None):
+def V(id, kind, props, file, old, new, what, expect_fn=None, within=None, edits=None, expect_rule=None, also=None):
     d = {"id": id, "kind": kind, "properties": props, "file": file, "what": what}
+    if also:
+        d["also"] = also
     if edits is not None:
         d["edits"] = edits
     else:
@@ -234,6 +236,27 @@ V("solveone-guard-removed", "break", ["C19", "C16"], BS,
   """            if stacks_top[0] >= len(shr_domains_stack) - 2:  # a value heuristic pushes at most two choice points
                 raise IndexError("The choice points stack is full, please increase stack_max_height")
 """, "", "no capacity guard before the value heuristic", "solve_one")
+_CP_CHECK = {"old": "    cp_top_idx = stacks_top[0]\n    shr_domains_stack[cp_top_idx + 1, :, :]",
+             "new": "    cp_top_idx = stacks_top[0]\n    if cp_top_idx + 1 >= len(shr_domains_stack):\n        raise IndexError(\"The choice points stack is full\")\n    shr_domains_stack[cp_top_idx + 1, :, :]",
+             "within": "def cp_put"}
+V("stack-check-moved-into-cp-put", "break", ["C04", "C15", "C19"], BS,
+  """            if stacks_top[0] >= len(shr_domains_stack) - 2:  # a value heuristic pushes at most two choice points
+                raise IndexError("The choice points stack is full, please increase stack_max_height")
+""", "", "the 'stack is full' check raised behind a function pointer: swallowed by compiled code, the search spins for ever", "cp_put",
+  also=[{"file": CP, "edits": [_CP_CHECK]}])
+V("stack-check-moved-into-cp-put-memory-safe", "neutral", ["C16", "C10"], BS,
+  """            if stacks_top[0] >= len(shr_domains_stack) - 2:  # a value heuristic pushes at most two choice points
+                raise IndexError("The choice points stack is full, please increase stack_max_height")
+""", "", "the same change does not write out of bounds: the push primitive refuses a full stack",
+  also=[{"file": CP, "edits": [_CP_CHECK]}])
+V("cp-put-defensive-check-neutral", "neutral", ["C04", "C15", "C16", "C19"], CP, None, None,
+  "a defensive 'stack is full' check added to cp_put while solve_one and the shaving probe keep their guards: unreachable", edits=[_CP_CHECK])
+V("heuristic-raise-behind-pointer", "break", ["C15"], H + "min_cost_dom_heuristic.py", None, None,
+  "a value heuristic reports a cost table that is too short by raising: ValueError interpreted, 'Exception ignored' and an arbitrary decision compiled", "min_cost_dom_heuristic",
+  within="def min_cost_dom_heuristic", edits=[{"old": "    best_cost = sys.maxsize\n", "new": "    if len(params) <= dom_idx:\n        raise ValueError(\"no costs for this variable\")\n    best_cost = sys.maxsize\n"}])
+V("heuristic-dead-assert-neutral", "neutral", ["C04", "C15", "C19"], H + "max_value_dom_heuristic.py", None, None,
+  "an assertion of an invariant in a value heuristic (listed as undecided, not reported)",
+  within="def max_value_dom_heuristic", edits=[{"old": "    cp_put(", "new": "    assert dom_idx >= 0\n    cp_put("}])
 V("solveone-events-masked", "break", ["C09", "C01", "C08"], BS,
   "                dom_idx,\n                events,\n            )\n            statistics[STATS_IDX_SOLVER_CHOICE_NB] += 1",
   "                dom_idx,\n                events & 3,\n            )\n            statistics[STATS_IDX_SOLVER_CHOICE_NB] += 1",
@@ -454,6 +477,21 @@ V("init-trigger-vector-or", "break", ["C01", "C08", "C13"], PB,
 V("addvar-or-default", "break", ["C01", "C13"], PB,
   "        if dom_index is None:\n            dom_index = insertion_idx\n        if dom_offset is None:\n            dom_offset = 0\n",
   "        dom_index = dom_index or insertion_idx\n        dom_offset = dom_offset or 0\n", "dom_index=0 treated as 'not given'", "add_variable")
+V("addvar-offset-or-zero-neutral", "neutral", ["C01", "C13"], PB,
+  "        if dom_offset is None:\n            dom_offset = 0\n", "        dom_offset = dom_offset or 0\n", "`x or 0`: 0 and 'not given' resolve to the same 0")
+V("split-inplace-neutral", "neutral", ["C12", "C13", "C11"], PB, "            problem.shr_domains_lst[var_idx] = [min_idx, max_idx]\n",
+  "            problem.shr_domains_lst[var_idx][0] = min_idx\n            problem.shr_domains_lst[var_idx][1] = max_idx\n",
+  "the part's domain narrowed in place: harmless while every writer of the domain list stores fresh lists")
+V("ctor-keeps-list-neutral", "neutral", ["C12", "C13"], PB,
+  "            [domain, domain] if isinstance(domain, int) else [domain[0], domain[1]] for domain in shr_domains_lst\n",
+  "            [domain, domain] if isinstance(domain, int) else (domain if isinstance(domain, list) else [domain[0], domain[1]]) for domain in shr_domains_lst\n",
+  "the constructor keeps a domain that is already a list: harmless while nothing narrows a domain list in place")
+V("split-inplace-and-ctor-keeps-list", "break", ["C12", "C13"], PB, None, None,
+  "domains written [[lo, hi]] * n are one object; split narrows all of them (0 solutions for n-queens split in 4)", "split",
+  edits=[{"old": "            problem.shr_domains_lst[var_idx] = [min_idx, max_idx]\n",
+          "new": "            problem.shr_domains_lst[var_idx][0] = min_idx\n            problem.shr_domains_lst[var_idx][1] = max_idx\n"},
+         {"old": "            [domain, domain] if isinstance(domain, int) else [domain[0], domain[1]] for domain in shr_domains_lst\n",
+          "new": "            [domain, domain] if isinstance(domain, int) else (domain if isinstance(domain, list) else [domain[0], domain[1]]) for domain in shr_domains_lst\n"}])
 V("init-neutral-or", "neutral", ["C01", "C08", "C13"], PB,
   "self.triggers[self.dom_indices_arr[prop_var], propagator_idx] |= triggers[prop_var_idx]",
   "self.triggers[self.dom_indices_arr[prop_var], propagator_idx] = self.triggers[self.dom_indices_arr[prop_var], propagator_idx] | triggers[prop_var_idx]", "|= written out")
